@@ -109,4 +109,17 @@ META = {
                 "check is the feature-matrix run (differential), not a theorem. Tag equality across builds is a differential result until C06 is proved.",
         "technique": "Lean 4 proof (corollaries of C01_scores over Cfg) + per-feature-subset differential builds",
     },
+    "C15": {
+        "text": "Unbounded Lean theorems over the mirrored filters (unchecked accesses modelled as checked ones that yield ub): on every "
+                "consistent sentence each filter returns ok (no panic, no out-of-range unchecked access), changes nothing but the "
+                "boundaries (resp. tags), and the new value of every boundary/tag slot is given pointwise by its rule — same type on "
+                "both sides -> N (C15_wsconst); CR/LF adjacent -> W (C15_linebreaks); inside a cluster -> N for EVERY segmentation into "
+                "clusters of >=1 characters (C15_graphemes); only absent slots of tokens whose surface has a rule are filled, with the "
+                "rule's entry (C15_tagger); the invariant is preserved (C15_inv) and all four are idempotent (C15_idem_*). Tied to /repo "
+                "by exhaustive short sentences x all label vectors and random grapheme-rich texts, with an independent pointwise oracle "
+                "and an idempotence oracle on the real filters.",
+        "design_ref": "DESIGN.md §6 C15",
+        "note": _common_note + "unicode-segmentation itself is not modelled (its output is an input of the model).",
+        "technique": "Lean 4 proof: pointwise characterisation of each mirrored loop by induction; idempotence from the pointwise form; differential correspondence",
+    },
 }
